@@ -50,7 +50,8 @@ import gen_radii  # noqa: E402
 PROPERTY = "C17"
 LEAN_TARGETS = ["QcelVerif.Props.C17", "QcelVerif.Props.C17Units", "QcelVerif.Props.C17Session",
                 "QcelVerif.Model.RadiiFactor", "QcelVerif.Props.C17Factor", "QcelVerif.Props.C17FactorC02",
-                "QcelVerif.Props.C17FactorText", "QcelVerif.Props.C17ToUnits", "QcelVerif.Driver.C17"]
+                "QcelVerif.Props.C17FactorText", "QcelVerif.Props.C17ToUnits", "QcelVerif.Driver.C17",
+                "QcelVerif.Model.RadiiAst", "QcelVerif.Gen.RadiiSrc", "QcelVerif.Model.RadiiSrc", "QcelVerif.Props.C17Src"]
 DRIVER = "QcelVerif/Driver/C17.lean"
 THEOREMS = [
     ("QcelVerif.Radii.radius_alias_invariant", "ANY periodic table, ANY radius table: if to_E(a) = E and a is not itself a different exact label, get(a, ...) = lookup-by-key(E, ...) for every return_tuple/missing/unit factor"),
@@ -116,6 +117,24 @@ THEOREMS = [
     ("QcelVerif.Radii.to_units_preserves_datum", "value semantics of the model: after ANY sequence of to_units calls the Datum (label, units, payload, comment, doi) is unchanged"),
     ("QcelVerif.Radii.to_units_replies_history_free", "every reply of a sequence of to_units calls equals that call alone on the original Datum"),
     ("QcelVerif.Radii.to_units_repeatable", "the same to_units call repeated n times gives the same answer n times"),
+    # ---- the lookup logic regenerated from the source (harness/c17_src.py -> Gen/RadiiSrc.lean; Props/C17Src.lean)
+    ("QcelVerif.Radii.Src.src_to_units_eq", "[regenerated from datum.py] Datum.to_units as the source has it (choice of the target unit when units is None, conversion_factor(self.units, to_unit), Decimal / non-Decimal dispatch) equals the hand model Datum.toUnitsU for ALL Datums, payload kinds, targets and factor maps"),
+    ("QcelVerif.Radii.Src.src_cov_get_eq", "[regenerated from covalent_radii.py] CovalentRadii.get as the source has it (label shortcut before to_E, KeyError handler with `missing is not None and return_tuple is False`, DataUnavailableError, return_tuple branch, call of the regenerated to_units, default of units) equals the hand model getU for ANY periodic table, ANY radius table, ANY factor map and every argument"),
+    ("QcelVerif.Radii.Src.src_vdw_get_eq", "[regenerated from vanderwaals_radii.py] the same for VanderWaalsRadii.get"),
+    ("QcelVerif.Radii.Src.vdw_get_body_eq_cov", "the two regenerated get bodies are the same statement list"),
+    ("QcelVerif.Radii.Src.src_get_defaults", "the keyword defaults printed from both signatures are units='bohr', return_tuple=False, missing=None"),
+    ("QcelVerif.Radii.Src.src_aliases_eq_spec", "[regenerated from the two __init__] the source's `aliases` list is the hand model's covAliasSpec (C<-C_sp3, Mn/Fe/Co<-*_highspin, unit literal angstrom, the comments), the row loops and the alias loop have the modelled key / Datum argument shapes, the van der Waals __init__ has no aliases"),
+    ("QcelVerif.Radii.Src.src_init_shipped_eq", "shipped data files: the dictionaries the regenerated __init__ of both classes builds (row loop, aliases evaluated on the rows, alias loop under the capitalised symbol) equal the hand model's loadCov / loadVdw tables, and both loads succeed [decide +kernel]"),
+    ("QcelVerif.Radii.Src.src_cov_init_eq", "[regenerated from covalent_radii.py] CovalentRadii.__init__ (row loop, `aliases` evaluated on the rows, alias loop) equals the hand model loadCov for ALL data rows that carry a comment column (the source indexes cr[2]), any units / doi"),
+    ("QcelVerif.Radii.Src.src_vdw_init_eq", "[regenerated from vanderwaals_radii.py] VanderWaalsRadii.__init__ equals the hand model loadVdw for ALL two-column data rows"),
+    ("QcelVerif.Radii.Src.src_rowloop_eq", "the regenerated row-loop body on ONE row equals the hand model's row for EVERY label / decimal text / comment (covalent shape with comment, van der Waals shape without)"),
+    ("QcelVerif.Radii.Src.src_tabulated_value", "source-derived get, ANY tables, both classes: an argument identifying key k whose entry holds a Decimal gives fl(f * float(Decimal)) with f the factor towards the requested (or default) unit whatever missing is, and the stored Datum itself with return_tuple"),
+    ("QcelVerif.Radii.Src.src_generic_is_largest", "over the dictionary the SOURCE's __init__ builds: the elements with variant rows are exactly C, Mn, Fe, Co and the entry under the bare symbol carries the maximum of its variants, in angstrom; none in the van der Waals set"),
+    ("QcelVerif.Radii.Src.src_native_unit_exact", "source-derived get on the source-built dictionaries: factor 1 towards the requested unit returns float(Decimal) itself, the nearest double (ties-to-even) of the tabulated decimal"),
+    ("QcelVerif.Radii.Src.src_missing_contract", "source-derived get, ANY tables, both classes: a valid element without entry raises DataUnavailable when missing is None or return_tuple is on, and returns exactly the caller's fallback otherwise (0.0 included)"),
+    ("QcelVerif.Radii.Src.src_not_element", "source-derived get, ANY tables, both classes: neither an exact label nor resolvable by to_E -> NotAnElement, never the fallback"),
+    ("QcelVerif.Radii.Src.src_label_first", "source-derived get: for an exact label the answer does not depend on the periodic table at all (the shortcut comes first)"),
+    ("QcelVerif.Radii.Src.src_to_units_default", "source-derived to_units: no target means the Datum's own unit"),
 ]
 
 
@@ -142,16 +161,26 @@ def gen_codata_c02(ctx):
     gen_codata.main(ctx)
 
 
-TRANSLATORS = [gen_periodic.main, gen_radii.main, gen_units_codata_c03, gen_codata_c02, gen_unit_names_c03]
+def gen_radii_src(ctx):
+    """C17's translator of the lookup LOGIC (harness/c17_src.py): get / __init__ of both classes and Datum.to_units ->
+    lean/QcelVerif/Gen/RadiiSrc.lean, statement by statement."""
+    import c17_src
+
+    c17_src.main(ctx)
+
+
+TRANSLATORS = [gen_periodic.main, gen_radii.main, gen_units_codata_c03, gen_codata_c02, gen_unit_names_c03, gen_radii_src]
 TRUSTED_BASE = [
     "Lean 4.33 kernel (decide +kernel over the generated radius tables and C01's generated periodic table); axioms audited per theorem",
     "tools/gen_radii.py and tools/gen_periodic.py: re-encode the data files as byte lists / packed naturals without normalisation; cross-checked by the exhaustive correspondence (keys, every Datum field, every value)",
-    "hand-written models Model/Radii.lean (covalent_radii.py:42-141, vanderwaals_radii.py:41-125, datum.py:51-105) and C01's Model/PeriodicTable.lean, tied by exhaustive differential correspondence",
+    "hand-written models Model/Radii.lean (covalent_radii.py:42-141, vanderwaals_radii.py:41-125, datum.py:51-105) and C01's Model/PeriodicTable.lean, tied by exhaustive differential correspondence; the LOOKUP LOGIC of Model/Radii.lean / RadiiFactor.lean is no longer a hand transcription only: get and __init__ of both classes and Datum.to_units are REGENERATED FROM THE SOURCE on every run (harness/c17_src.py -> Gen/RadiiSrc.lean, statement by statement) and proved equal to the hand model for all inputs (Props/C17Src.lean: src_cov_get_eq, src_vdw_get_eq, src_to_units_eq, src_cov_init_eq, src_vdw_init_eq), with periodictable.to_E, the dictionary operations (`in keys()`, `[key]`) and constants.conversion_factor as named primitives exactly as the hand model parameterises them",
+    "harness/c17_src.py (translator, trusted): reads the three files by `ast`; purely syntactic (names -> variable numbers, `elif` -> nested if, statement list -> seq, messages of raised exceptions / docstrings / imports dropped, `self.name` / `self.year` assignments of __init__ skipped as not part of the lookup, __init__ recognised by shape); any other construct raises and the run reports a broken obligation. Model/RadiiAst.lean (interpreter, trusted reading of the Python constructs used: truthiness, `is None` / `is not None` / `is False`, `and`/`or` short-circuit values, conditional expression, try/except KeyError, assert, return, float(Decimal), float * float / float * ndarray elementwise, float * Decimal a TypeError, dictionary keys compared through the injective packing of C01's model; a KeyError handler sees the environment from before the try body). Sampled three-way on every run: every lookup case, every to_units case and both key listings go through the interpreter (driver ops srcget / srctoufull / srckeys) and are compared with the hand model's line (exact) and with the implementation (exact for get; to_units through the existing tolerance path against the hand model)",
+    "still hand-modelled and differential only: pydantic's Datum construction / validation (must_be_numerical), Decimal(text) parsing (parseDec, plain notations only), str.capitalize, OrderedDict semantics (last assignment wins), the non-lookup methods (string_representation, write_c_header)",
     "Model/RadiiF64.lean: doubles as exact rationals, `rnd64` = round-to-nearest-even to 53 bits (exponent range not modelled); checked bit-for-bit against CPython on every value of every run",
     "the unit factor: the EXACT factor of every pair of {bohr, angstrom, pm, nm, m} is now derived in Lean — C03's SI model (Model/Units.lean, Units.conv; imported read-only) over the CODATA table regenerated by C03's translator (harness/c03.py:gen_units_codata, called from C17's TRANSLATORS), proved equal to 1/bohr2angstroms of C02's context model over C02's regenerated table (tools/gen_codata.py, also called here), and the five unit TEXTS are proved to read as those unit expressions by C03's model of pint's string front end over the regenerated registry name set (harness/c03.py:gen_unit_names). The model's double is rnd64 of the exact rational",
     "STILL A CHECKED PARAMETER: pint's float evaluation of the factor (a handful of roundings; e.g. angstrom->nm comes out as 0.09999999999999999, 0.6 ulp off) is not modelled. On every run the implementation's double for all 25 unit pairs is compared with the model's exact rational AND with the oracle's own exact rational at the stated tolerance |f - q| <= 2^-50 |q| (4 machine epsilons; measured maximum on this platform 1.0 ulp on the default context); Lean proves what that tolerance implies for the returned radius (impl_factor_value_accuracy: < 11u relative). The existing correspondence (the implementation's double handed to the model as a parameter, result compared bit for bit) and the oracle's 1e-14 bounds are kept; in addition the implementation's results are compared with the derived-factor model (driver ops getfull / toufull) — exactly where the implementation's double is the correctly rounded factor (angstrom->bohr, pm, m, identity here), within the proved bound otherwise (nm)",
     "that pint + ureg.py + context.py implement C03's unit model in general remains C03's differential tie; C17 checks it for the five units of its quantifier only",
-    "hand-written Model/RadiiFactor.lean: which unit expression each of the five texts denotes (proved against C03's front-end model, unit_texts_parse), to_units' choice of target unit (datum.py:99), and the Datum-as-state model of repeated to_units calls (to_units has no assignment to self); the aliasing side — whether a returned ndarray shares memory with the stored payload — is NOT expressible in the model and is differential: stream D compares the payload before and after every call of a sequence of to_units calls and after in-place modification of a returned array",
+    "hand-written Model/RadiiFactor.lean: which unit expression each of the five texts denotes (proved against C03's front-end model, unit_texts_parse), to_units' choice of target unit (datum.py:99; now also regenerated from datum.py and proved equal: src_to_units_eq), and the Datum-as-state model of repeated to_units calls (to_units has no assignment to self); the aliasing side — whether a returned ndarray shares memory with the stored payload — is NOT expressible in the model and is differential: stream D compares the payload before and after every call of a sequence of to_units calls and after in-place modification of a returned array",
     "CPython float(Decimal) and int/int true division assumed correctly rounded (the former re-checked against the exact decimal on every value)",
     "the oracle's own re-reading of the two data files and of the periodic table arrays",
     "Model/RadiiSession.lean: the public non-lookup methods are modelled as returning the table they were given (no assignment to self.cr / self.vdwr or to a stored Datum exists in covalent_radii.py:73-186, vanderwaals_radii.py:59-170); tied by the call-sequence stream, whose lookups after arbitrary call histories are compared with the stateless model",
@@ -166,6 +195,7 @@ ASSUMPTIONS = [
     "a caller modifying a returned ndarray in place is part of stream D only to detect shared memory with the stored payload (the Datum must still hold its value afterwards); Datum payloads that are not arrays are immutable Python objects",
     "call sequences consist of public calls only (get, write_c_header, string_representation, str/repr, construction / copy / deepcopy of a radius set, reading methods of a returned Datum, molutil.guess_connectivity, periodic_table.write_c_header, constants.string_representation, physical_constants write_c_header); a caller assigning into the public dicts `cr` / `vdwr` or forcing attributes of a frozen Datum is outside; the content of the written headers/listings is not C17's subject (only what the calls leave behind is)",
     "a secondary instance of a radius set (constructed with the same context name, or copied from the singleton) is held to the same clauses as the singleton",
+    "source-derived functions: the context argument of __init__ is the shipped one (the `else: raise KeyError` branch for another context name is recognised but not interpreted); atom values outside int / str and `units` values that are not a str are `stuck` in the interpreter (outside the documented signature)",
 ]
 RULE = (
     "exhaustive: every element row (Z=0..117, tabulated or not) x alias forms {int Z, str Z, symbol, name, nuclide labels of the "
@@ -174,6 +204,8 @@ RULE = (
     "label exactly and in non-label spellings; non-elements by construction; random ASCII; Datum.to_units over all ordered unit "
     "pairs (and None) x float/Decimal/array payloads; Datum validation kinds. A case is distinct by (set, argument, return_tuple, "
     "units, missing) and non-trivial when the argument is not the canonical table key or the outcome is an error or the fallback. "
+    "Every lookup case, every to_units case and both key listings are additionally run through the bodies regenerated from the source "
+    "(interpreter in the driver) and compared three-way (stream R; same cases, no new generator). "
     "Call sequences (each in a pristine fork): one sequence per kind of non-lookup call {write_c_header x set x filler {default, 2.0, 0.0, 3.25} "
     "on the singleton; new instance by {constructor, deepcopy, copy} alone / + write_c_header / + string_representation on it; "
     "string_representation; str; Datum reading calls; guess_connectivity; periodic-table / constants writers}, 20 (quick) / 200 (thorough) "
@@ -194,11 +226,16 @@ LEVEL_TEXT = (
     "the unit model beyond these five units is C03's tie. Datum.to_units is modelled with the same factor (elementwise linear up to the stated "
     "roundings, exact for powers of two; the Datum is unchanged by any sequence of calls — value semantics in the model, shared-memory aliasing checked "
     "differentially); "
+    "the lookup logic itself (get and __init__ of both classes, Datum.to_units) is regenerated from the source text on every run and proved, "
+    "for all inputs, to be the hand model's (Props/C17Src.lean), and the headline clauses (tabulated value returned, bare element = largest variant, "
+    "native unit exact, missing contract, non-element error, label shortcut first) are restated over the source-derived functions — partial there "
+    "because the translator and the interpreter's reading of the Python constructs are trusted (sampled three-way on every lookup of every run), "
+    "to_E / the dictionary / conversion_factor are primitives, and Datum construction, Decimal parsing and capitalize remain hand-modelled; "
     "independence of a lookup from the calls made before it is a theorem of the session model and is tied to the code by sampled call "
     "sequences over all public entry points of the radius objects (sampled, not exhaustive: orders and options are drawn from VERIF_SEED)"
 )
 TECHNIQUE = ("Lean 4 proof (structural + field/rounding algebra + decide +kernel over generated tables) + translators (radii, periodic table, "
-             "CODATA for the unit model and for the constants context, registry name set) + exhaustive differential correspondence + independent oracle")
+             "CODATA for the unit model and for the constants context, registry name set, the lookup logic of get / __init__ / to_units as an AST proved equal to the model) + exhaustive differential correspondence + independent oracle")
 
 UNITS = ["bohr", "angstrom", "pm", "nm", "m"]
 EXACT_SCALE = {"angstrom": Fraction(1), "pm": Fraction(100), "nm": Fraction(1, 10), "m": Fraction(1, 10**10)}
@@ -769,6 +806,34 @@ def getfull_line(impl: Impl, case) -> str:
     a = f"i {arg}" if isinstance(arg, int) else f"s {hexs(arg)}"
     m = "N" if case["missing"] is None else fl_s(case["missing"])
     return f"getfull {impl.year} {case['set']} {1 if case['rt'] else 0} {a} {m} {xhex(case['units'])}"
+
+
+def tou_replay_data(case):
+    data = case["data"]
+    return str(data) if isinstance(data, Decimal) else (data.tolist() if isinstance(data, np.ndarray) else float(data).hex())
+
+
+def srcget_line(impl: Impl, case) -> str:
+    return "src" + get_line(impl, case)
+
+
+def srctoufull_line(impl: Impl, case) -> str:
+    return "src" + toufull_line(impl, case)
+
+
+def check_src(out: Outcome, rep, src_line, model_line, ci, what):
+    """three-way: the body regenerated from the source (interpreter) vs the hand model vs the implementation.
+    `ci` None = the implementation is compared with the hand model elsewhere (to_units: tolerance on pint's double)."""
+    if src_line is None:
+        return
+    out.evaluations += 1
+    out.count("R:" + what + " regenerated from source, three-way")
+    if model_line is not None and src_line != model_line:
+        out.mismatches.append(Finding("mismatch", dict(rep, model="regenerated from source"), observed=src_line, expected=model_line,
+                                      detail=what + ": body regenerated from the source vs hand model (the equality theorem of Props/C17Src.lean does not hold of this source)"))
+    elif ci is not None and src_line != ci:
+        out.mismatches.append(Finding("mismatch", dict(rep, model="regenerated from source"), observed=ci, expected=src_line,
+                                      detail=what + ": implementation vs body regenerated from the source"))
 
 
 def factor_line(impl: Impl, src: str, dst: str) -> str:
@@ -1419,9 +1484,16 @@ def run(ctx: Ctx) -> Outcome:
     gfull = sorted(sure + ctx.rng.sample(rest, min(len(rest), ctx.scale(1500, 15000))))
     lines_full = [factor_line(impl, a, b) for a, b in pairs] + [getfull_line(impl, gets[i][1]) for i in gfull] + [toufull_line(impl, c) for c in tous]
     flat = [l for ls in seq_lines for l in ls]
-    nall = len(flat) + len(lines) + len(lines_full)
-    model = ctx.run_model(DRIVER, flat + lines + lines_full) if ctx.model_available else [None] * nall
+    # R: the bodies regenerated from the source, on every lookup / to_units case and both key listings
+    lines_src = [srcget_line(impl, c) for _, c in gets] + [srctoufull_line(impl, c) for c in tous] + [f"srckeys {s}" for s in SETS]
+    tou_reps = [{"op": "tou", "u1": c["u1"], "u2": c["u2"], "kind": c["kind"], "data": tou_replay_data(c)} for c in tous]
+    nall = len(flat) + len(lines) + len(lines_full) + len(lines_src)
+    model = ctx.run_model(DRIVER, flat + lines + lines_full + lines_src) if ctx.model_available else [None] * nall
     it = iter(model)
+    off_get = len(flat)
+    off_keys = off_get + len(gets) + len(tous) + len(mks)
+    off_toufull = len(flat) + len(lines) + len(pairs) + len(gfull)
+    off_src = len(flat) + len(lines) + len(lines_full)
     budget = [SEQ_ITEMISED]
     for (family, steps), recs, ls in zip(episodes, seq_recs, seq_lines):
         digest_episode(impl, out, family, steps, recs, [next(it) for _ in ls],
@@ -1445,6 +1517,16 @@ def run(ctx: Ctx) -> Outcome:
     # D + T: to_units against both models, and the payload before / after repeated calls
     for case, ml in zip(tous, tou_models):
         check_tou(impl, out, case, ml, next(it), ex)
+    # R: source-derived bodies, three-way
+    for i, (tag, case) in enumerate(gets):
+        sl = model[off_src + i]
+        if sl is not None:
+            ci = canon(impl.get(case["set"], case["arg"], case["rt"], case["units"], case["missing"]))
+            check_src(out, {"op": "get", **case}, sl, model[off_get + i], ci, "get")
+    for j, case in enumerate(tous):
+        check_src(out, tou_reps[j], model[off_src + len(gets) + j], model[off_toufull + j], None, "to_units")
+    for j, sname in enumerate(SETS):
+        check_src(out, {"op": "keys", "set": sname}, model[off_src + len(gets) + len(tous) + j], model[off_keys + j], None, "__init__ (keys)")
     # default unit is bohr: the context's factor agrees with its own bohr2angstroms
     f = impl.factor("angstrom", "bohr")
     out.evaluations += 1
@@ -1489,11 +1571,16 @@ def replay(ctx: Ctx, case) -> Outcome:
         if ctx.model_available:
             for cc in (c, c2):
                 check_getfull(impl, ex, out, "replay", cc, ctx.run_model(DRIVER, [getfull_line(impl, cc)])[0])
+            for cc, mm in ((c, ml), (c2, ml2)):
+                check_src(out, {"op": "get", **cc}, ctx.run_model(DRIVER, [srcget_line(impl, cc)])[0], mm,
+                          canon(impl.get(cc["set"], cc["arg"], cc["rt"], cc["units"], cc["missing"])), "get")
         out.sample({"case": c, "impl": canon(impl.get(c["set"], c["arg"], c["rt"], c["units"], c["missing"])), "model": ml})
     elif op == "tou":
         c = {"u1": case["u1"], "u2": case["u2"], "kind": case["kind"], "data": _decode_data(case)}
         ml, fl = ctx.run_model(DRIVER, [tou_line(impl, c), toufull_line(impl, c)]) if ctx.model_available else (None, None)
         check_tou(impl, out, c, ml, fl, ex)
+        if ctx.model_available:
+            check_src(out, dict(case), ctx.run_model(DRIVER, [srctoufull_line(impl, c)])[0], fl, None, "to_units")
         # the same payload in the reverse direction (a second, genuine evaluation)
         if c["u2"] is not None and c["u2"] != c["u1"]:
             c2 = dict(c, u1=c["u2"], u2=c["u1"], data=_decode_data(case))
@@ -1514,6 +1601,8 @@ def replay(ctx: Ctx, case) -> Outcome:
     elif op == "keys":
         ml = ctx.run_model(DRIVER, [f"keys {case['set']}"])[0] if ctx.model_available else None
         check_keys(impl, ex, out, case["set"], ml)
+        if ctx.model_available:
+            check_src(out, dict(case), ctx.run_model(DRIVER, [f"srckeys {case['set']}"])[0], ml, None, "__init__ (keys)")
     elif op == "seq":
         # this replay process is itself pristine: run the recorded calls here, in order, then consult the model
         steps = case["steps"]
